@@ -808,6 +808,24 @@ pub fn gen_scenario(rng: &mut Rng, profile: Profile, tier: Tier) -> CursorScn {
                         events.push(Ev::Query { c, x });
                     }
                 }
+                // long strictly monotone drifts (streak counters, "hot segment" pinning, galloping searches)
+                if profile != Profile::Mixed && rng.below(64) < burst_rate && x.is_finite() {
+                    let k = *rng.pick(&[3usize, 10, 40, 135, 300]);
+                    let lo = e[0];
+                    let hi = e[e.len() - 1];
+                    let span = if lo.is_finite() && hi.is_finite() && hi > lo { hi - lo } else { 4.0 };
+                    let step = span / k as f64 * rng.uniform(0.05, 3.0) * if rng.chance(2, 3) { -1.0 } else { 1.0 };
+                    let mut y = x;
+                    for _ in 0..k {
+                        let z = y + step;
+                        if !z.is_finite() || z == y {
+                            break;
+                        }
+                        y = z;
+                        events.push(Ev::Query { c, x: y });
+                    }
+                    prev[c] = Some(y);
+                }
             }
             ClientKind::Stream => {
                 // Feed a burst, then pull some (the scheduler decides how far behind the consumer is).
